@@ -1271,4 +1271,13 @@ pub(crate) const MAX_PUBKEY_SIZE: usize = 97;""")]),
     dict(name='c13-dh-or-helper-unwraps', expect=[('C10', 'R10.2')], patch=BP + 'B33-3.diff',
          note='the shared dh_or helper ignores its failure argument and reports EncapError on the receiver side too',
          edits=[('src/kem/dhkem.rs', "                    Err(_) => Err(failure),", "                    Err(_) => { let _ = failure; Err(HpkeError::EncapError) }")]),
+    dict(name='c01-default-accessor-sender-drops-authpsk', expect=[('C01', 'R01.5'), ('C02', 'R02.6')], patch=BP + 'B36-2.diff',
+         note='PSK accessors as default trait methods over psk_bundle(): the sender\'s psk_bundle() forgets the AuthPsk arm, so an AuthPsk sender keys its schedule with the empty PSK',
+         edits=[('src/op_mode.rs', "            OpModeS::AuthPsk(_, bundle) => Some(bundle),\n", "")]),
+    dict(name='c15-default-accessor-id-for-bytes', expect=[('C15', 'R15.3')], patch=BP + 'B36-2.diff',
+         note='default get_psk_bytes returns bundle.psk_id: the identifier is used as the key',
+         edits=[('src/op_mode.rs', "            Some(bundle) => bundle.psk,\n", "            Some(bundle) => bundle.psk_id,\n")]),
+    dict(name='c02-generic-ctx-schedule-wrong-label', expect=[('C02', 'R02.5'), ('C11', 'R11.3')], patch=BP + 'B22-2.diff',
+         note='key schedule generic over the returned context type (conversion hoisted by the normaliser) with the exporter secret derived under the label "exq"',
+         edits=[('src/setup.rs', 'b"exp",', 'b"exq",')]),
 ]
